@@ -314,6 +314,35 @@ func c07(c *Ctx) {
 		}
 	}
 	R.Floor("C07.use.node", n, 4)
+	// the n that is fed into the threshold is the size of the set the VAA names: the set is
+	// snapshotted with the node's own observation on EVERY path through broadcastSignature — also
+	// when a peer's observation created the aggregation entry first (otherwise the entry keeps no
+	// snapshot, later observations fall back to the then-current set, and after a set update the
+	// threshold is computed for another n than the one the contracts will use for that VAA)
+	{
+		a7 := c.processor()
+		isSnap := func(i ssa.Instruction) bool {
+			st, ok := i.(*ssa.Store)
+			if !ok || fieldOfAddr(st.Addr) != a7.vs["gs"] {
+				return false
+			}
+			_, gf := fieldLoad(st.Val)
+			return gf == a7.fGs
+		}
+		nr := 0
+		okAll := true
+		eachInstr(a7.bSig, func(i ssa.Instruction) {
+			r, ok := i.(*ssa.Return)
+			if !ok || r.Block().Comment == "recover" {
+				return
+			}
+			nr++
+			if !facts.Before(r, isSnap) {
+				okAll = false
+			}
+		})
+		R.Check("C07.use", "C07.use/(*Processor).broadcastSignature/snapshot-always", c.rel(p.Pos(a7.bSig.Pos())), "the guardian set in force is recorded with the node's own observation on every path (whether or not an entry existed)", okAll && nr > 0, "a path through broadcastSignature leaves the entry without the snapshot of p.gs")
+	}
 	// the inbound path stores a peer's VAA only above the same threshold: the comparison is
 	// `CalculateQuorum(len(p.gs.Keys)) <= len(v.Signatures)` — not some other arithmetic on the counts
 	a7 := c.processor()
